@@ -41,6 +41,7 @@ let parse_answer t =
   | 'U' -> A401 (str_of_hex (String.sub t 1 (String.length t - 1)))
   | 'T' -> ATok (n_of_int (int_of_string (String.sub t 1 (String.length t - 1))))
   | 'F' -> AFail
+  | 'S' -> AShare (n_of_int (int_of_string (String.sub t 1 (String.length t - 1))))
   | 'X' -> AErr
   | _ -> failwith "answer"
 
